@@ -25,6 +25,8 @@
 (*   type-block-is-query   TQ: file and rule statuses equal those of B     *)
 (*   default-rule   BD: as B, the first rule being called `default` or     *)
 (*                  `<file>/default`                                       *)
+(*   parse-tree-formats-agree  B: `parse-tree --print-yaml` and            *)
+(*                  `--print-json` print the same tree                     *)
 (***************************************************************************)
 EXTENDS TraceCommon
 
@@ -55,7 +57,9 @@ SameAsDefault(line, b) ==
 
 Step(line) ==
   /\ Relate(line.i, "parses", line.ptkind = "ok")
-  /\ CASE line.var = "B" -> Judge(line) /\ base' = line
+  /\ CASE line.var = "B" -> /\ Judge(line)
+                            /\ Relate(line.i, "parse-tree-formats-agree", line.pt_formats_agree)
+                            /\ base' = line
        [] line.var = "SY" ->
             /\ Relate(line.i, "same-program", SameProgram(line, base))
             /\ Relate(line.i, "same-verdicts", line.obs = base.obs)
